@@ -277,31 +277,42 @@ def pad(name, length, ch="x"):
 
 
 def gen_long_cyc(r, limit, tag=""):
-    """a reference-group design (c12.gen_cyc) with names stretched so that `<inst>_<port>` lies around the limit"""
+    """a reference-group design (c12.gen_cyc) with names stretched so that `<inst>_<port>` lies around the limit.
+    At most ONE kind of name is over the limit per design (victim: a referenced port / an unnamed no-connect), so that every
+    flatname site is met by an over-long name on its own; `short`: no stretching at all, but an explicit signal carries the
+    name an implicit one would get (collisions far below the limit)."""
     cyc = c12.gen_cyc(r, tag=tag)
-    li = r.choice([3, 40, limit // 2, limit - 12])
-    refuse = r.random() < 0.5                       # intended: some name over the limit (whether it is a NAMER decides)
+    short = r.random() < 0.2
+    li = 0 if short else r.choice([3, 40, limit // 2, limit - 12])
+    victim = None if short else r.choice([None, None, "port", "nc"])
+    ports = sorted({p for _, ps in cyc["insts"] for p in ps})
+    over = set(r.sample(ports, min(len(ports), r.randint(1, 2)))) if victim == "port" else set()
     imap = {n: pad(n, li, "y") for n, _ in cyc["insts"]}
     pmap = {}
-    ports = sorted({p for _, ps in cyc["insts"] for p in ps})
     for p in ports:
-        total = limit + (r.choice([1, 1, 2, 9]) if refuse and r.random() < 0.6 else r.choice([0, 0, -1, -1, -2, -7]))
-        pmap[p] = pad(p, total - li - 1, "x")
+        total = limit + (r.choice([1, 1, 2, 9]) if p in over else r.choice([0, 0, -1, -1, -2, -7]))
+        pmap[p] = p if short else pad(p, total - li - 1, "x")
     out = dict(insts=[[imap[n], [pmap[p] for p in ps]] for n, ps in cyc["insts"]],
                edges=[[imap[a], pmap[p], imap[b], pmap[q]] for a, p, b, q in cyc["edges"]], tag=tag)
-    if r.random() < 0.5:                             # an instance whose ports go to unnamed no-connects (signals named <inst>_<port>)
-        nports = [pad(p, limit + r.choice([0, 0, -1, -2, -5] + ([1, 2] if refuse else [])) - li - 1, "z") for p in r.sample(["k", "m", "n"], r.randint(1, 2))]
+    if victim == "nc" or r.random() < 0.4:           # an instance whose ports go to unnamed no-connects (signals named <inst>_<port>)
+        names = r.sample(["k", "m", "n"], r.randint(1, 2))
+        totals = [limit + r.choice([0, 0, -1, -2, -5]) for _ in names]
+        if victim == "nc":
+            totals[0] = limit + r.choice([1, 1, 2, 9])
+        nports = [p if short else pad(p, t - li - 1, "z") for p, t in zip(names, totals)]
         ninst = pad("nc0", li, "y")
         out["insts"].append([ninst, nports])
         out["ncs"] = [[ninst, p] for p in nports]
-    if r.random() < 0.5:                             # an explicit signal already carries the name an implicit one would get
-        namers = []                                  # the ports that name an implicit signal (harness-side reading; the tie decides)
+    if short or r.random() < 0.4:                    # an explicit signal already carries the name an implicit one would get
+        namers = [tuple(x) for x in out.get("ncs", [])]       # the ports that name an implicit signal (harness-side reading; the tie decides)
         for g in c12.cyc_groups(out):
             un = [m for m in g if not m[2]]
             namers.append(tuple(un[0][:2]) if len(un) == 1 else min((i, p) for i, p, _ in g))
-        i, p = r.choice(namers) if namers and r.random() < 0.8 else (out["insts"][0][0], out["insts"][0][1][0])
+        i, p = r.choice(namers) if namers and r.random() < 0.85 else (out["insts"][0][0], out["insts"][0][1][0])
         out["sigs"] = [f"{i}_{p}"[:limit]]
-    return dict(kind="cyc", cyc=out, long=True)
+        if r.random() < 0.3 and len(out["sigs"][0]) < limit:
+            out["sigs"].append(out["sigs"][0] + "_")             # ... and the next candidate as well
+    return dict(kind="cyc", cyc=out, long=True, victim=victim or ("short" if short else "none"))
 
 
 def rename_bd(bd, f_b, f_s, f_p, f_i, f_t):
@@ -513,7 +524,8 @@ def need(run, stream, label, have, want):
 def avoided(job, o):
     """an exported signal is `<explicit signal>_`: the implicit name had to step aside"""
     names = {s for _, ns in o[0][1].get("sigs", []) for s in ns}
-    return any(x + "_" in names for x in job.get("cyc", {}).get("sigs", []))
+    sigs = job.get("cyc", {}).get("sigs", [])
+    return any((x + "_" in names and x + "_" not in sigs) or x + "__" in names for x in sigs)
 
 
 def differs(o, key):
@@ -561,28 +573,36 @@ def run_streams(run, tier, seed, hashseeds):
     need(run, "genparams", "naming texts tied to the model", ties, 10)
 
     # ---- longnames
-    n = 30 if quick else 200
+    n = 36 if quick else 200
     jobs = []
     for k in range(n):
         r = core.rng(seed, "C12", "longnames", k)
         jobs.append(gen_long_cyc(r, limit, tag=f"_{k}") if k % 3 != 2 else gen_long_bd(r, limit, tag=f"_{k}"))
-    obs, bad, _ = c12.evaluate(run, "longnames", jobs, hashseeds, seed, 15 if quick else 40, nontrivial=lambda j: long_nontrivial(j, limit),
+    obs, bad, _ = c12.evaluate(run, "longnames", jobs, hashseeds, seed, 18 if quick else 40, nontrivial=lambda j: long_nontrivial(j, limit) or j.get("victim") == "short",
                                rule=f"non-trivial = some joined name <a>_<b> (instance_port, bundle_signal, port_signal, array_index) within 2 characters of the "
-                                    f"flatname limit {limit}; distinct by design")
+                                    f"flatname limit {limit}, or a short-named design in which an explicit signal carries an implicit signal's name; distinct by design")
     ties = run_ties(run, "longnames", jobs, obs, bad)
     refused = sum(1 for o in obs if all(r["pkg"] == "!RuntimeError" for _, r in o))
     longest = [max([len(s) for _, names in o[0][1].get("sigs", []) for s in names] + [0]) for o in obs]
     at_limit = sum(1 for x in longest if x == limit)
     near = sum(1 for x in longest if limit - 2 <= x <= limit)
     collided = sum(1 for j, o in zip(jobs, obs) if avoided(j, o))
+    all_refused = lambda o: all(r["pkg"] == "!RuntimeError" for _, r in o)
+    by_victim = {v: sum(1 for j, o in zip(jobs, obs) if j.get("victim") == v and all_refused(o)) for v in ("port", "nc")}
+    short_collided = sum(1 for j, o in zip(jobs, obs) if j.get("victim") == "short" and avoided(j, o))
     st = run.coverage["streams"]["longnames"]
-    st.update(exported_with_an_implicit_name_that_avoided_an_explicit_signal=collided, with_unnamed_noconnects=sum(1 for j in jobs if j.get("cyc", {}).get("ncs")),
+    st.update(refused_where_only_a_referenced_port_name_is_over_long=by_victim["port"], refused_where_only_a_noconnect_name_is_over_long=by_victim["nc"],
+              short_named_designs_whose_implicit_name_avoided_an_explicit_signal=short_collided,
+              exported_with_an_implicit_name_that_avoided_an_explicit_signal=collided, with_unnamed_noconnects=sum(1 for j in jobs if j.get("cyc", {}).get("ncs")),
               model_tie_cases=ties, limit=limit, refused_in_every_process=refused, exported_with_a_name_of_exactly_the_limit=at_limit,
               exported_with_a_name_within_2_of_the_limit=near, with_colliding_explicit_signal=sum(1 for j in jobs if j.get("cyc", {}).get("sigs")))
     need(run, "longnames", "designs refused (RuntimeError) in every process", refused, 4)
     need(run, "longnames", "designs exported with a signal name within 2 characters of the limit", near, 4)
     need(run, "longnames", "designs exported with a signal name of exactly the limit", at_limit, 1)
     need(run, "longnames", "reference-group designs tied to the model", ties, 8)
+    need(run, "longnames", "designs refused where only the name of a referenced port is over-long", by_victim["port"], 1)
+    need(run, "longnames", "designs refused where only the name of an unnamed no-connect is over-long", by_victim["nc"], 1)
+    need(run, "longnames", "short-named designs whose implicit name had to avoid an explicit signal", short_collided, 1)
     need(run, "longnames", "designs (zcorpus + longnames) exported with an implicit name that had to avoid an explicit signal", collided + collided_corpus, 1)
 
     # ---- pdkreg: one program per interpreter
